@@ -29,6 +29,23 @@ class ANode:
             child.appended += 1
             self.children.append(child)
             return child
+        if name == "cloneNode":
+            deep = bool(args[0]) if args else bool(kwargs.get("deep", False))
+
+            def clone(n):
+                c = ANode(n.kind, tag=n.tag, text=n.text)
+                c.attrs = dict(n.attrs)
+                if deep:
+                    for ch in n.children:
+                        cc = clone(ch)
+                        cc.parent = c
+                        cc.appended = 1
+                        c.children.append(cc)
+                return c
+            new = clone(self)
+            if new.kind == "element":
+                interp.__dict__.setdefault("dom_created", []).append((new, node))
+            return new
         if name == "setAttribute":
             self.attrs[args[0]] = args[1]
             return None
